@@ -69,7 +69,7 @@ func Scenarios(thorough bool) map[string]*Scenario {
 	m["Q07m"] = &Scenario{ID: "Q07m", Kind: "Deployment", Style: "partition", Replicas: 4,
 		Steps: []StepSpec{{Replicas: "25%"}, {Replicas: "3"}, {Replicas: "100%"}}}
 	// Deployment blue-green + nginx Ingress
-	m["Q08"] = &Scenario{ID: "Q08", Kind: "Deployment", Style: "bluegreen", Replicas: 2, Traffic: "ingress", Grace: 1,
+	m["Q08"] = &Scenario{ID: "Q08", Kind: "Deployment", Style: "bluegreen", Replicas: 2, Traffic: "ingress", Grace: 1, HPA: true,
 		Steps: []StepSpec{{Replicas: "100%", Traffic: "0%"}, {Replicas: "100%", Traffic: "100%"}}}
 	if thorough {
 		m["Q01"].Replicas = 5
@@ -94,10 +94,26 @@ type PropertyPlan struct {
 	// Relabel: violations of the shared monitors are reported under this property (C06 runs all of them).
 	Relabel  bool
 	StateCap int
+	// FaultPointsPerControlState: fault points (crash after write i, error / conflict at call j) are injected at one
+	// representative state per abstract control state instead of at every state (quick tier of the properties whose
+	// deciding deviation is a user action; C06, the fault property itself, always injects at every state)
+	FaultPointsPerControlState bool
 }
 
 func Plans(thorough bool) map[string]PropertyPlan {
-	capQ := 60000
+	plans := plans0(thorough)
+	if !thorough {
+		for _, id := range []string{"C02", "C04", "C10", "C18"} {
+			p := plans[id]
+			p.FaultPointsPerControlState = true
+			plans[id] = p
+		}
+	}
+	return plans
+}
+
+func plans0(thorough bool) map[string]PropertyPlan {
+	capQ := 120000
 	if thorough {
 		capQ = 400000
 	}
